@@ -11,7 +11,11 @@ use std::process::{Command, Stdio};
 use std::sync::mpsc;
 use std::time::{Duration, Instant};
 
-pub const VERIF_DIR: &str = "/verif";
+/// Root for evidence/, replays/, known_findings.json (default /verif; `VERIF_DIR` overrides it for
+/// background runs from a snapshot).
+pub fn verif_dir() -> String {
+    std::env::var("VERIF_DIR").unwrap_or_else(|_| "/verif".to_string())
+}
 fn run_wall_limit_s() -> u64 {
     std::env::var("VERIF_RUN_LIMIT_S").ok().and_then(|s| s.parse().ok()).unwrap_or(120)
 }
@@ -56,7 +60,7 @@ pub fn worker_main(check: &dyn Check, tier: Tier, seed: u64, w: u64, nw: u64, lo
     let mut res = WorkerResult::default();
     let mut sigs: BTreeSet<u64> = BTreeSet::new();
     let out = std::io::stdout();
-    let known = KnownFindings::load(&format!("{VERIF_DIR}/known_findings.json")).unwrap_or_default();
+    let known = KnownFindings::load(&format!("{}/known_findings.json", verif_dir())).unwrap_or_default();
     let mut i = lo + ((w + nw - (lo % nw)) % nw);
     while i < hi {
         {
@@ -373,7 +377,7 @@ fn abbreviate(v: &Value, max: usize) -> Value {
 }
 
 pub fn write_replay(check_id: &str, seed: u64, run: u64, tier: Tier, plan: &Value, v: &Violation, minimised: bool, original: Option<&Value>) -> String {
-    let dir = format!("{VERIF_DIR}/replays");
+    let dir = format!("{}/replays", verif_dir());
     let _ = std::fs::create_dir_all(&dir);
     let path = format!("{dir}/{check_id}-{seed}-{run}.json");
     let doc = json!({
@@ -388,7 +392,7 @@ pub fn write_replay(check_id: &str, seed: u64, run: u64, tier: Tier, plan: &Valu
 pub fn check_main(check: &dyn Check, tier: Tier, seed: u64, nw: u64) -> i32 {
     let t0 = Instant::now();
     println!("VERIF_SEED={seed} property={} tier={} workers={nw}", check.id(), tier.name());
-    let known = match KnownFindings::load(&format!("{VERIF_DIR}/known_findings.json")) {
+    let known = match KnownFindings::load(&format!("{}/known_findings.json", verif_dir())) {
         Ok(k) => k,
         Err(e) => {
             eprintln!("HARNESS-ERROR: {e}");
@@ -398,7 +402,7 @@ pub fn check_main(check: &dyn Check, tier: Tier, seed: u64, nw: u64) -> i32 {
     // 1. replay the open known findings of this property
     let mut exit = 0;
     for k in known.open.iter().filter(|k| k.property == check.id()) {
-        let path = format!("{VERIF_DIR}/{}", k.replay);
+        let path = format!("{}/{}", verif_dir(), k.replay);
         let doc: Value = match std::fs::read_to_string(&path).map_err(|e| e.to_string()).and_then(|s| serde_json::from_str(&s).map_err(|e| e.to_string())) {
             Ok(d) => d,
             Err(e) => {
@@ -519,8 +523,8 @@ pub fn check_main(check: &dyn Check, tier: Tier, seed: u64, nw: u64) -> i32 {
         "wall_s": wall,
         "violations": nviol,
     });
-    let _ = std::fs::create_dir_all(format!("{VERIF_DIR}/evidence"));
-    let evpath = format!("{VERIF_DIR}/evidence/{}.json", check.id());
+    let _ = std::fs::create_dir_all(format!("{}/evidence", verif_dir()));
+    let evpath = format!("{}/evidence/{}.json", verif_dir(), check.id());
     if let Err(e) = std::fs::write(&evpath, serde_json::to_string_pretty(&ev).unwrap()) {
         eprintln!("HARNESS-ERROR: cannot write {evpath}: {e}");
         return 2;
@@ -545,7 +549,7 @@ pub fn replay_main(check: &dyn Check, path: &str) -> i32 {
     match exec_in_subprocess(check.id(), plan) {
         Ok(Some(v)) => {
             println!("replayed: oracle={} signature={} detail={}", v.oracle, v.signature, v.detail);
-            let known = KnownFindings::load(&format!("{VERIF_DIR}/known_findings.json")).unwrap_or_default();
+            let known = KnownFindings::load(&format!("{}/known_findings.json", verif_dir())).unwrap_or_default();
             if let Some(k) = known.matches(check.id(), &v) {
                 println!("KNOWN-FINDING: property={} {}", check.id(), k.what);
                 return 0;
